@@ -120,6 +120,21 @@ template <class S> static void explore(const std::string& sol, const std::vector
   }
   std::cout.setstate(std::ios::failbit);
   bool fork_each = n <= 4;  // tiny solutions (sod_1d): one process per target, because an inadmissible element may make the library abort
+  // (f) partly uninitialised states: one parameter, or two, hold the "uninitialised" marker -12345.67 (what masa_purge_default_param stores)
+  // while all others are set -- evaluating must still not write any registered parameter ("derive a default when the user left it unset")
+  if (!getenv("O2_SELECTION_ONLY") && n > 4) {
+    std::vector<int> sel; for (int i = 0; i < n; i++) { const std::string& nm = R.names[i]; bool mode = nm.size() > 2 && nm[1] == '_' && nm[0] >= 'a' && nm[0] <= 'g'; if (n <= 60 || !mode) sel.push_back(i); }
+    if (sel.size() > 24 && tier == 0) sel.resize(24);
+    auto snapshot = [&] { std::string b; for (int i = 0; i < n; i++) { S v = masa_get_param<S>(R.names[i]); b.append((const char*)&v, sizeof(S) == 8 ? 8 : 10); } return b; };
+    LD cb0[4]; 
+    for (size_t a = 0; a < sel.size(); a++) for (size_t b = a; b < sel.size(); b++) {
+      R.apply(base, 0, 0, cb0); R.set(sel[a], (LD)-12345.67); R.set(sel[b], (LD)-12345.67);
+      std::string before = snapshot(); R.eval_all(cb0); std::string after = snapshot(); hist++;
+      if (before != after && viol < 40) { viol++; int w = -1; size_t ww = sizeof(S) == 8 ? 8 : 10; for (int i = 0; i < n; i++) if (before.compare(i * ww, ww, after, i * ww, ww) != 0) { w = i; break; }
+        fprintf(out, "V\t%s\t%s\t*\tevaluating with %s%s%s left at the uninitialised marker changed the registered parameter %s\n", sol.c_str(), scal, R.names[sel[a]].c_str(), a == b ? "" : " and ", a == b ? "" : R.names[sel[b]].c_str(), w >= 0 ? R.names[w].c_str() : "?"); }
+    }
+    R.apply(base, 0, 0, cb0);
+  }
   if (getenv("O2_SELECTION_ONLY")) targets.clear();  // C12 runs part (e) only
   for (auto& e : targets) {
     LD c[4], cz[4], cb[4];
